@@ -122,7 +122,8 @@ def ordered_candidates_rule(ck, ix):
 
 def run(ck, ix, tier):
     # ------------------------------------------------------------ get_name
-    fi = ix.func(PR, "GenericPlainRegistry.get_name")
+    from ..lib import inlined as _inl
+    fi = _inl(ix, ix.func(PR, "GenericPlainRegistry.get_name"), skip=("_helper_adder", "_helper_single_adder"))     # an extracted `_define_prefixed_unit` is looked through
     ck.analysed(fi)
     cfg, defs = cfg_of(fi), defs_of(fi)
     exact = [n.id for n in cfg.nodes if n.kind == "stmt" and isinstance(n.ast, ast.Return) and norm(n.ast.value).startswith("self._units[") and norm(n.ast.value).endswith("].name")]
@@ -216,9 +217,17 @@ def run(ck, ix, tier):
             ck.check(b.startswith("self._units[") and b.endswith("].name"), "G-TWIN", f"_yield_unit_triplets|canonical-unit-name|{b[:30]}", fi.loc(y), "unit reported by its canonical name", f"`{b}` is yielded as the unit (must be the canonical name)")
             ck.check(c == "self._suffixes[suffix]", "G-TWIN", f"_yield_unit_triplets|canonical-suffix|{b[:30]}", fi.loc(y), "suffix reported canonically", f"`{c}` is yielded as the suffix")
     src = norm(fi.node)
-    ck.check("itertools.product(self._suffixes, self._prefixes)" in src and "stw(prefix) and edw(suffix)" in src, "G-PROV", "_yield_unit_triplets|all-prefix-suffix-combinations", fi.loc(), "all suffix x prefix combinations that frame the string", "the enumeration over suffixes x prefixes changed")
-    ck.check("name = unit_name[len(prefix):]" in src and "name = name[:-len(suffix)]" in src, "G-PROV", "_yield_unit_triplets|strips-prefix-and-suffix", fi.loc(), "prefix and suffix are stripped exactly", "prefix/suffix stripping changed (off-by-one?)")
-    ck.check("if len(name) == 1:\n        continue" in src.replace("            ", "    ").replace("                    ", "        ") or "len(name) == 1" in src, "G-PROV", "_yield_unit_triplets|no-plural-of-one-letter-units", fi.loc(), "one-letter stems are not de-pluralised", "the one-letter plural exclusion is gone")
+    from .. import shape as _sht
+    prod = [l for l in walk_local(fi.node) if isinstance(l, ast.For) and norm(l.iter) in ("itertools.product(self._suffixes, self._prefixes)", "product(self._suffixes, self._prefixes)")]
+    ys_ = [y for y in ast.walk(fi.node) if isinstance(y, ast.Yield)]
+    framed = lambda y: _sht.holds_at(y, fi.node, lambda a_: norm(a_) in ("stw(prefix)", "unit_name.startswith(prefix)"), True) and _sht.holds_at(y, fi.node, lambda a_: norm(a_) in ("edw(suffix)", "unit_name.endswith(suffix)"), True)
+    ck.check(len(prod) == 1 and bool(ys_) and all(framed(y) for y in ys_), "G-PROV", "_yield_unit_triplets|all-prefix-suffix-combinations", fi.loc(), "all suffix x prefix combinations that frame the string", "candidates are no longer produced for exactly the (suffix, prefix) pairs that frame the string")
+    strips = [a_ for a_ in walk_local(fi.node) if isinstance(a_, ast.Assign) and isinstance(a_.value, ast.Subscript) and isinstance(a_.value.slice, ast.Slice)]
+    texts = {norm(a_.value) for a_ in strips}
+    stem = norm(strips[0].targets[0]) if strips else "name"
+    ck.check("unit_name[len(prefix):]" in texts and f"{stem}[:-len(suffix)]" in texts, "G-PROV", "_yield_unit_triplets|strips-prefix-and-suffix", fi.loc(), "prefix and suffix are stripped exactly", f"prefix/suffix stripping changed (off-by-one?): {sorted(texts)}")
+    one = [c_ for c_ in walk_local(fi.node) if isinstance(c_, ast.Compare) and norm(c_) == f"len({stem}) == 1"]
+    ck.check(len(one) == 1 and _sht.holds_at(one[0], fi.node, lambda a_: isinstance(a_, ast.Name) and a_.id == "suffix", True), "G-PROV", "_yield_unit_triplets|no-plural-of-one-letter-units", fi.loc(), "one-letter stems are not de-pluralised", "the one-letter plural exclusion is gone")
     guard = [t for t in walk_local(fi.node) if isinstance(t, ast.If) and "prefix" in norm(t.test) and "_units_casei" in norm(t.test)]
     ok = bool(guard) and any(isinstance(x, ast.Continue) for g in guard for x in ast.walk(g)) and all("not in" in norm(g.test) for g in guard)
     ck.check(ok, "G-DOM", "_yield_unit_triplets|prefix-only-on-defined-spellings", fi.loc(guard[0]) if guard else fi.loc(),
@@ -228,8 +237,18 @@ def run(ck, ix, tier):
     fi = ix.func(PR, "GenericPlainRegistry._dedup_candidates")
     ck.analysed(fi)
     src = norm(fi.node)
-    ck.check("candidates.pop(('', cp + cu, ''), None)" in src and "if cp:" in src, "G-PROV", "_dedup_candidates|prefixed-reading-preferred", fi.loc(), "the unprefixed twin ('', prefix+unit, '') of a prefixed reading is dropped", "_dedup_candidates no longer drops the unprefixed twin of a prefixed reading")
-    ck.check("dict.fromkeys(candidates)" in src and "return tuple(candidates)" in src, "G-PROV", "_dedup_candidates|order-preserving", fi.loc(), "order-preserving deduplication", "candidate order is no longer preserved")
+    # ordered dedup (dict.fromkeys), then for every prefixed reading (p, u, s) the unprefixed twin ('', p + u, '') is dropped
+    fk = [a_ for a_ in walk_local(fi.node) if isinstance(a_, ast.Assign) and norm(a_.value) == "dict.fromkeys(candidates)"]
+    tbl = norm(fk[0].targets[0]) if fk else "candidates"
+    loops_ = [l for l in walk_local(fi.node) if isinstance(l, ast.For) and isinstance(l.target, ast.Tuple) and len(l.target.elts) == 3 and tbl in norm(l.iter)]
+    okd = False
+    for l in loops_:
+        p_, u_, s_ = [norm(e) for e in l.target.elts]
+        pops = [c_ for c_ in ast.walk(l) if isinstance(c_, ast.Call) and call_name(c_) == "pop" and norm(c_.func.value) == tbl]
+        okd = okd or (len(pops) == 1 and norm(pops[0].args[0]) == f"('', {p_} + {u_}, '')" and _sht.holds_at(pops[0], fi.node, lambda a_: isinstance(a_, ast.Name) and a_.id == p_, True))
+    ck.check(okd, "G-PROV", "_dedup_candidates|prefixed-reading-preferred", fi.loc(), "the unprefixed twin ('', prefix+unit, '') of a prefixed reading is dropped", "_dedup_candidates no longer drops the unprefixed twin of a prefixed reading")
+    rets_ = [norm(r.value) for r in _sht.returns_of(fi.node)]
+    ck.check(bool(fk) and rets_ == [f"tuple({tbl})"], "G-PROV", "_dedup_candidates|order-preserving", fi.loc(), "order-preserving deduplication", "candidate order is no longer preserved (dict.fromkeys ... tuple)")
 
     casei_writers_rule(ck, ix)
     fi = ix.func(PR, "GenericPlainRegistry._helper_adder")
@@ -244,7 +263,9 @@ def run(ck, ix, tier):
     memo.rule_parse_unit_memo(ck, ix)
     fi = ix.func(PR, "GenericPlainRegistry._parse_units_as_container")
     cfg = cfg_of(fi)
-    subst = nodes_with(cfg, lambda x: isinstance(x, ast.Assign) and norm(x.targets[0]) == "cname" and "'delta_'" in norm(x.value))
+    cn_ = [a_.targets[0].id for a_ in walk_local(fi.node) if isinstance(a_, ast.Assign) and isinstance(a_.targets[0], ast.Name) and isinstance(a_.value, ast.Call) and call_name(a_.value) == "get_name"]
+    CN = cn_[0] if cn_ else "cname"        # the canonical name of the current unit, whatever the local is called
+    subst = nodes_with(cfg, lambda x: isinstance(x, ast.Assign) and norm(x.targets[0]) == CN and norm(x.value) in (f"'delta_' + {CN}", f"f'delta_{{{CN}}}'"))
     ck.check(len(subst) == 1, "G-DOM", "_parse_units_as_container|delta-substitution-present", fi.loc(), "delta substitution present", "the delta_ substitution for offset units in compound expressions is gone")
     from .. import shape
     ph = [a_.targets[0].id for a_ in walk_local(fi.node) if isinstance(a_, ast.Assign) and isinstance(a_.targets[0], ast.Name) and isinstance(a_.value, ast.Call) and norm(a_.value.func) == "ParserHelper.from_string"]
@@ -266,7 +287,7 @@ def run(ck, ix, tier):
         sx = shape.resolve(second, fi.node, 1)
         return first == f"len({PHV}) > 1" and isinstance(second, ast.Compare) and isinstance(second.ops[0], ast.NotEq) and norm(second.comparators[0]) == "1" and (norm(second.left) in expv or norm(sx.left) in expv)
     is_as_delta = lambda a_: isinstance(a_, ast.Name) and a_.id == "as_delta"
-    is_mult = lambda a_: isinstance(a_, ast.Attribute) and a_.attr == "is_multiplicative" and ("self._units[cname]" in norm(a_.value) or "self._units[cname]" in shape.rnorm(a_.value, fi.node, 1))
+    is_mult = lambda a_: isinstance(a_, ast.Attribute) and a_.attr == "is_multiplicative" and (f"self._units[{CN}]" in norm(a_.value) or f"self._units[{CN}]" in shape.rnorm(a_.value, fi.node, 1))
     for s in subst:
         st = cfg.nodes[s].ast
         ck.check(shape.holds_at(st, fi.node, is_as_delta, True) and shape.holds_at(st, fi.node, _is_compound_or_exponent, True), "G-DOM", "_parse_units_as_container|delta-only-if-compound-or-exponent", fi.loc(st),
@@ -274,9 +295,9 @@ def run(ck, ix, tier):
         ck.check(shape.holds_at(st, fi.node, is_mult, False), "G-DOM", "_parse_units_as_container|delta-only-if-non-multiplicative", fi.loc(st), "substitution only for non-multiplicative units",
                  "offset units are replaced by delta units without the non-multiplicative guard (multiplicative units would get a delta_ twin that does not exist)")
     src = norm(fi.node)
-    adds = [c_ for c_ in walk_local(fi.node) if isinstance(c_, ast.Call) and call_name(c_) == "add" and len(c_.args) == 2 and norm(c_.args[0]) == "cname"]
+    adds = [c_ for c_ in walk_local(fi.node) if isinstance(c_, ast.Call) and call_name(c_) == "add" and len(c_.args) == 2 and norm(c_.args[0]) == CN]
     ck.check(len(adds) == 1 and (norm(adds[0].args[1]) in expv or shape.rnorm(adds[0].args[1], fi.node, 1) in expv), "G-PROV", "_parse_units_as_container|many-means-more-than-one-unit", fi.loc(), "every unit is accumulated with its own exponent", "units are no longer accumulated with their own exponent")
-    okn = any(isinstance(a_, ast.Assign) and norm(a_.targets[0]) == "cname" and isinstance(a_.value, ast.Call) and call_name(a_.value) == "get_name" and "case_sensitive=case_sensitive" in norm(a_.value) for a_ in walk_local(fi.node))
+    okn = any(isinstance(a_, ast.Assign) and norm(a_.targets[0]) == CN and isinstance(a_.value, ast.Call) and call_name(a_.value) == "get_name" and "case_sensitive=case_sensitive" in norm(a_.value) for a_ in walk_local(fi.node))
     ck.check(okn and len(adds) == 1, "G-PROV", "_parse_units_as_container|canonical-names-with-exponents", fi.loc(),
              "every unit is added under its canonical name with its exponent", "units are no longer accumulated under get_name(name, case_sensitive=...) with their exponent")
     scaled = shape.guard_edges(cfg, lambda a_: isinstance(a_, ast.Compare) and isinstance(a_.ops[0], ast.Eq) and sorted([norm(a_.left), norm(a_.comparators[0])]) == sorted([f"{PHV}.scale", "1"]), want=False)
